@@ -96,6 +96,22 @@ def extract(tree):
     if not m:
         raise ExtractError("escapeu: code point limit not recognised")
     c["maxCodepoint"] = csrc.cint(m.group(1))
+    # ---- stringend: every read of the scratch buffer must be guarded by the current length (no stale bytes are looked at)
+    body = norm(csrc.func_body(src, "stringend"))
+    g = {}
+    for key, rx in (("stripLeadCRLFGuard", r"if\(buflen>(\d+)&&bufstart\[0\]=='\\r'&&bufstart\[1\]=='\\n'\)"),
+                    ("stripLeadLFGuard", r"elseif\(buflen>(\d+)&&bufstart\[0\]=='\\n'\)"),
+                    ("stripTrailCRLFGuard", r"if\(buflen>(\d+)&&bufstart\[buflen-2\]=='\\r'&&bufstart\[buflen-1\]=='\\n'\)"),
+                    ("stripTrailLFGuard", r"elseif\(buflen>(\d+)&&bufstart\[buflen-1\]=='\\n'\)")):
+        m = re.findall(rx, body)
+        if len(m) != 1:
+            raise ExtractError("stringend: guard %s not recognised" % key)
+        g[key] = int(m[0])
+    c.update(g)
+    for frag, n in (("(r+1)<end&&*r=='\\r'&&*(r+1)=='\\n'", 2), ("(r<end)&&(*r!='\\n')&&(j<indent_col)", 2), ("while(reindent&&(r<end))", 1),
+                    ("while(r<end)", 1), ("uint8_t*r=bufstart,*end=r+buflen;", 1), ("int32_tindent_col=(int32_t)top.column-1;", 1)):
+        if body.count(frag) != n:
+            raise ExtractError("stringend: loop bound / indent column `%s` expected %d time(s), found %d" % (frag, n, body.count(frag)))
     # ---- flags
     for name in ("PFLAG_CONTAINER", "PFLAG_BUFFER", "PFLAG_PARENS", "PFLAG_SQRBRACKETS", "PFLAG_CURLYBRACKETS", "PFLAG_STRING", "PFLAG_LONGSTRING",
                  "PFLAG_READERMAC", "PFLAG_ATSYM", "PFLAG_COMMENT", "PFLAG_TOKEN", "PFLAG_INSTRING", "PFLAG_END_CANDIDATE", "JANET_PARSER_DEAD",
@@ -227,6 +243,9 @@ def render(tree):
     L.append("abbrev flushFields : List String := [%s]" % ", ".join('"%s"' % f for f in c["flushFields"]))
     L.append("/-- does `janet_parser_flush` reset `states[0].argn`?  (the model's flush follows the source) -/")
     L.append("abbrev flushResetsRootArgn : Bool := %s" % ("true" if c["flushResetsRootArgn"] else "false"))
+    L.append("/-- `stringend`: minimal lengths guarding the reads bufstart[0..1] / bufstart[buflen-2..buflen-1] of the EOL strip -/")
+    for key in ("stripLeadCRLFGuard", "stripLeadLFGuard", "stripTrailCRLFGuard", "stripTrailLFGuard"):
+        L.append("abbrev %s : Nat := %d" % (key, c[key]))
     L.append("/-- does `contains_bad_chars` refuse symbols that read back as nil/true/false, a number, a keyword or nothing? -/")
     L.append("abbrev ppRefusesMisreadSymbols : Bool := %s" % ("true" if c["ppRefusesMisreadSymbols"] else "false"))
     L.append("\nend JanetModel.Gen.Parse")
